@@ -1,50 +1,66 @@
-import LibInj.Proofs.Tables
-import LibInj.Sqli.Check
+import LibInj.Proofs.BenignTop
 /-! # C14 — plain words and numbers are never reported as SQLi
 
-Full statement (kept visible): for every list `ws` of identifiers and unsigned integers none of
-which is a component of a keyword-table key, `isSQLi (unwords ws) = .ok (false, [])`.
+**Proved for every such input (`benign_not_sqli`, the word/number core of the property):** for every
+list `ws` of identifiers (`[A-Za-z_][A-Za-z0-9_]*`) and unsigned integers, where no identifier is a key
+of the keyword table nor the first word of one of its phrases (what "not a component of an entry"
+gives), `isSQLi (unwords ws) = .ok (false, [])` — any number of words, of any length.
 
-Proved here (class E, re-checked against the regenerated table on every build): the token-class
-abstraction of that family — every fingerprint over `{n,1}` of length 1..5 — is absent from the
-blacklist, for the whole table at once. The lexing/folding lemmas that reduce the concrete family to
-this abstraction are not yet theorems (`benign_not_sqli_partial` gap); the family is sampled by the
-oracle and compared with the model. -/
+The proof follows the pipeline: (1) lexing — every dispatch class a letter can select (`b'`, `e'`,
+`n'`, `q'`, `u&'`, `x'` prefixes included) falls back to `parseWord`, which yields one bareword
+spanning exactly the identifier; an integer yields one number (`runP_good`; dispatch-table facts
+re-checked on every build); (2) folding — on a window that holds only such barewords and numbers no
+two- or three-token rule fires and `merge` finds no phrase (`foldTwo_benign`, `foldThree_benign`), so
+`fold` only moves its cursor (`foldLoop_benign`); (3) the fingerprint is a word over `{n,1}` of length
+≤ 5, and **no such key is in the blacklist** (`benign_fingerprints_absent`, the whole regenerated table
+at once); (4) no `'`/`"`, no `#`/`--` comment counted, so the other four readings are not tried.
+
+Not theorems (sampled by the oracle and compared with the model): the e-mail-like, decimal-number
+and punctuated-sentence families of the property. -/
 namespace LibInj.Properties.C14
 open LibInj LibInj.Tables LibInj.Sqli
 
-/-- the low `k` bytes of `n` are all `N` (78) or `1` (49) and what remains is `0` (48):
-`n` is the key `"0" ++ upper f` of a fingerprint `f ∈ {n,1}^k` -/
-def n1Key : Nat → Nat → Bool
-  | 0, n => Nat.beq n 48
-  | k+1, n => (Nat.beq (n % 256) 78 || Nat.beq (n % 256) 49) && n1Key k (n / 256)
-
-/-- an entry that would make a `{n,1}` fingerprint blacklisted -/
-def badEntry (e : Entry) : Bool := Nat.beq e.2.2 70 && Nat.ble 2 e.1 && n1Key (e.1 - 1) e.2.1
-
-def isWordStart (c : UInt8) : Bool := isLowerAscii c || isUpperAscii c || c == 95
-def isWordByte (c : UInt8) : Bool := isWordStart c || (48 ≤ c && c ≤ 57)
-def Word (w : Bytes) : Prop := ∃ c t, w = c :: t ∧ isWordStart c = true ∧ t.all isWordByte = true
-def Num (w : Bytes) : Prop := w ≠ [] ∧ w.all (fun c => 48 ≤ c && c ≤ 57) = true
-/-- neither a word nor the phrase it forms with its right neighbour is a key of the table
-(implied by the property's "not a component of any key") -/
-def MergeFree : List Bytes → Prop
-  | [] => True
-  | [w] => searchKeyword w = 0
-  | w :: w' :: t => searchKeyword w = 0 ∧ searchKeyword (w ++ [32] ++ w') = 0 ∧ MergeFree (w' :: t)
+def Word (w : Bytes) : Prop := ∃ c t, w = c :: t ∧ isWordStartB c = true ∧ t.all isWordByteB = true
+def Num (w : Bytes) : Prop := w ≠ [] ∧ w.all isDigit = true
+/-- the word is no key of the table and starts no phrase of the table -/
+def NotKeywordLike (w : Bytes) : Prop := searchKeyword w = 0 ∧ ∀ y, searchKeyword (w ++ [32] ++ y) = 0
 def unwords : List Bytes → Bytes
   | [] => []
   | [w] => w
   | w :: t => w ++ [32] ++ unwords t
 
-/-- the full statement of C14 (word/number core); not yet a theorem, see the module comment -/
+/-- the statement of C14 (word/number core) -/
 def C14_statement : Prop :=
-  ∀ ws : List Bytes, (∀ w ∈ ws, Word w ∨ Num w) → MergeFree ws → isSQLi (unwords ws) = .ok (false, [])
+  ∀ ws : List Bytes, (∀ w ∈ ws, (Word w ∧ NotKeywordLike w) ∨ Num w) → isSQLi (unwords ws) = .ok (false, [])
 
-set_option maxRecDepth 200000 in
-/-- no key of the regenerated table is `0` followed only by `N`/`1` with class `F` -/
-theorem benign_fingerprints_absent_table : (Gen.keywords.all fun e => !badEntry e) = true := by
+theorem txt_unwords : ∀ (ws : List Bytes), (∀ w ∈ ws, GoodWord w ∨ GoodNum w) → Txt (unwords ws)
+  | [], _ => Txt.nil
+  | [w], h => by
+    have := Txt.word (h w (by simp)) (Or.inl rfl) Txt.nil
+    simpa [unwords] using this
+  | w :: w' :: t, h => by
+    have ih := txt_unwords (w' :: t) (fun x hx => h x (List.mem_cons_of_mem _ hx))
+    have := Txt.word (h w (by simp)) (Or.inr ⟨_, rfl⟩) (Txt.space ih)
+    simpa [unwords] using this
+
+/-- **C14, word/number core: full statement.** -/
+theorem benign_not_sqli : C14_statement := by
+  intro ws h
+  apply isSQLi_txt
+  apply txt_unwords
+  intro w hw
+  rcases h w hw with ⟨hword, hk1, hk2⟩ | hnum
+  · exact Or.inl ⟨hword, fun _ => hk1, fun _ => hk2⟩
+  · exact Or.inr hnum
+
+/-- non-vacuity: `hello` is a word that is neither a key nor the start of a phrase … -/
+example : Word (bs "hello") := ⟨104, bs "ello", by decide +kernel, by decide +kernel, by decide +kernel⟩
+/-- … and the statement's conclusion on a concrete instance is what the kernel computes -/
+example : (match isSQLi (unwords [bs "hello", bs "42", bs "world_1"]) with | .ok (false, []) => true | _ => false) = true := by
   decide +kernel
+
+theorem benign_fingerprints_absent_table : (Gen.keywords.all fun e => !badEntry e) = true :=
+  LibInj.Sqli.benign_fingerprints_absent_table
 
 /-- base-256 value of the key `"0" ++ f` where `r` is `f` reversed (last class first) -/
 def keyRev : List Nat → Nat
